@@ -1,5 +1,7 @@
 package pongo2
 
+import "math"
+
 // C18: built-in data filters match their reference semantics. Real filter code
 // vs. a small reference function, same symbolic inputs, solver decides equality.
 
@@ -482,15 +484,16 @@ func HarnessC18Widthratio() {
 	cw2, m2 := 2*cur*width, 2*max
 	d := got*m2 - cw2 // 2*max*(r - ratio)
 	verifAssert(d <= max && -d <= max, "widthratio must be an integer nearest to cur/max*width")
-	if d == max || -d == max {
-		// an exact tie: Django's round() resolves it away from zero (Python 2) or to even (Python 3); nothing else is documented
-		lo := got
-		if d == max {
-			lo = got - 1 // got is the upper neighbour
-		}
+	// The documented value is Django's: round(float(cur) / float(max) * float(width)) - the ratio is a
+	// float computed in this order, so "a tie" means a tie of THAT float (an exact rational tie like
+	// -15/22*11 is -7.499999999999999 as a float and simply rounds to -7, in Django as in pongo2).
+	r := float64(cur) / float64(max) * float64(width)
+	lo := int(math.Floor(r))
+	if r == math.Floor(r)+0.5 {
+		// a tie of the float: Python 2 resolves it away from zero, Python 3 to even; nothing else is documented
 		hi := lo + 1
 		away := hi
-		if cw2 < 0 {
+		if r < 0 {
 			away = lo
 		}
 		even := lo
@@ -498,6 +501,10 @@ func HarnessC18Widthratio() {
 			even = hi
 		}
 		verifAssert(got == away || got == even, "widthratio resolves an exact tie neither away from zero nor to even")
+	} else {
+		df := float64(got) - r
+		verifAssert(df < 0.5, "widthratio is not the integer nearest to the ratio")
+		verifAssert(df > -0.5, "widthratio is not the integer nearest to the ratio")
 	}
 }
 
